@@ -39,7 +39,7 @@ def run_points(case, box=None, labels=None, queries=None, wall_s=300, state_hook
     fn = C.reward_fn(case) if seq is None else None
     labels = labels or labels_of(case)
     queries = set(queries or [])
-    P = C.plain_part_class(case["part"])
+    P = C.plain_part_class(case["part"], case.get("part_binding"))
     out = {"points": [], "last": None, "crash": None, "qpoints": []}
     old = signal.signal(signal.SIGALRM, _alarm)
     signal.alarm(int(wall_s * float(os.environ.get("PYXABMON_WALL_SCALE", "1") or 1)))
